@@ -215,6 +215,7 @@ CFG = {
     "prop_file": "Properties/C08.v",
     "run_modules": ["Verif.C08.Run", "Verif.C08.RunI"],
     "coq_dirs": ["C08"],
+    "coq_timeout": 2400,
     # VERIF_C08_N: development override (mutant runs on a loaded machine)
     "n": {"quick": int(os.environ.get("VERIF_C08_N", "3000")), "thorough": 200000},
     "shard": 250,
@@ -231,7 +232,7 @@ CFG = {
              "and a finally block, a for-of or a built-in consumer is involved; distinct = by hash of the case"),
     "theorem_names": ["finally_exactly_once", "finally_exactly_once_innermost_first", "finally_overrides",
                       "iterator_closed_once", "completion_value_rules", "uncatchable_runs_nothing_S", "trace_in_syntax",
-                      "finally_throw_not_caught_by_own_catch", "pending_return_value_refuted", "finally_nested_break_value_refuted", "caught_throw_stale_value_refuted", "nested_branch_loses_value_refuted", "branch_in_breaking_finally_refuted", "uncatchable_runs_nothing", "uncatchable_step_runs_nothing", "leaveTry_leaveFinally_roundtrip"],
+                      "compile_control_correct_partial", "finally_throw_not_caught_by_own_catch", "pending_return_value_refuted", "finally_nested_break_value_refuted", "caught_throw_stale_value_refuted", "nested_branch_loses_value_refuted", "branch_in_breaking_finally_refuted", "uncatchable_runs_nothing", "uncatchable_step_runs_nothing", "leaveTry_leaveFinally_roundtrip"],
     "allowed_axioms": [],
     "trusted_base": [
         "Coq 8.16.1 kernel + vm_compute (no native_compute); theorems closed under the global context (no axioms)",
